@@ -333,8 +333,8 @@ func invalidateInPlace(g *model.Gen, y psatoken.IClaims) string {
 }
 
 func runC08(c *mon.Ctx) {
-	c.Rule("every claims-set class of C01 (valid, each single / double / triple rule violation, random products; both profiles; a registered P2-based extension with its own extra rule (negative timestamp) so that a gate that runs only the generic rules is visible) built by direct field assignment, pushed through the object-side gates (also: attached/encoded while valid, then made invalid IN PLACE through a clearing setter, an exported field or a retained component pointer, and pushed through the gates again) SetClaims, ValidateAndEncodeClaimsToCBOR, ValidateAndEncodeClaimsToJSON, ValidateAndSign (7 algorithms, signer wrapped to count invocations); extension-profile tokens (CBOR, JSON, COSE) that break only the extension's own rule; the wire tokens of C04 (valid / rule-breaking / type-breaking / open encodings), JSON documents of valid and rule-breaking sets, and COSE envelopes (tokens signed with the non-validating Sign, and C04 wire tokens wrapped + signed by the harness) pushed through DecodeAndValidateClaimsFromCBOR, DecodeAndValidateClaimsFromJSON, the deprecated DecodeJSONClaims, DecodeAndValidateEvidenceFromCOSE. Oracle: the library's own Validate() on the same object / on the non-validating sibling's result: Validate fails => the gate returns an error, no bytes, no object, attaches nothing (and never invokes the signer); Validate succeeds => the gate's result equals the non-validating sibling's (bytes, payload+protected header, claims observation, Verify). distinct_nontrivial = distinct (gate family, profile, violated-claim classes) signatures")
-	if err := extprof.Register(extprof.ExtP2Name); err != nil {
+	c.Rule("every claims-set class of C01 (valid, each single / double / triple rule violation, random products; both profiles; a registered P2-based extension with its own extra rule (negative timestamp) so that a gate that runs only the generic rules is visible) built by direct field assignment, plus objects whose only defect is a profile claim that does not match the implementing type (canonical name unset / foreign; an extension object carrying its base profile's name - not expressible on the wire), plus a second, stricter registered extension whose own rules are reported with the library's ignorable sentinels (mandatory boot seed -> missing-optional, forbidden VSI -> not-in-profile); pushed through the object-side gates (also: attached/encoded while valid, then made invalid IN PLACE through a clearing setter, an exported field or a retained component pointer, and pushed through the gates again) SetClaims, ValidateAndEncodeClaimsToCBOR, ValidateAndEncodeClaimsToJSON, ValidateAndSign (7 algorithms, signer wrapped to count invocations); extension-profile tokens (CBOR, JSON, COSE) that break only the extension's own rule; the wire tokens of C04 (valid / rule-breaking / type-breaking / open encodings), JSON documents of valid and rule-breaking sets, and COSE envelopes (tokens signed with the non-validating Sign, and C04 wire tokens wrapped + signed by the harness) pushed through DecodeAndValidateClaimsFromCBOR, DecodeAndValidateClaimsFromJSON, the deprecated DecodeJSONClaims, DecodeAndValidateEvidenceFromCOSE. Oracle: the library's own Validate() on the same object / on the non-validating sibling's result: Validate fails => the gate returns an error, no bytes, no object, attaches nothing (and never invokes the signer); Validate succeeds => the gate's result equals the non-validating sibling's (bytes, payload+protected header, claims observation, Verify). distinct_nontrivial = distinct (gate family, profile, violated-claim classes) signatures")
+	if err := extprof.Register(extprof.ExtP2Name, extprof.ExtP1Name, extprof.ExtStrictName); err != nil {
 		c.Violation("harness/register", err.Error(), nil)
 		return
 	}
@@ -429,6 +429,113 @@ func runC08(c *mon.Ctx) {
 			if err == nil {
 				tok := sign1Bytes(prot, nil, wire, sg)
 				guard("cose decode gates", map[string]any{"token_hex": mon.Hex(tok)}, func() { c.Count("cose:" + c08DecodeCOSE(c, tok, k.Pub, "cose|"+sig)) })
+			}
+		}
+	}
+	// ---- objects whose only defect cannot be expressed on the wire: the profile
+	// claim does not match the implementing type (canonical name unset / foreign,
+	// an extension carrying its base profile's name). The encoded payload decodes
+	// into a perfectly valid claims-set of another type, so a gate that validates
+	// what it has encoded instead of what it was given lets them through.
+	for i := 0; i < c.N(8000, 200000); i++ {
+		p := 1 + g.R.Intn(2)
+		a := g.Valid(p)
+		x, err := obs.Build(a)
+		if err != nil {
+			continue
+		}
+		how := ""
+		switch g.R.Intn(3) {
+		case 0:
+			if q := obs.P1Of(x); q != nil {
+				q.CanonicalProfile = ""
+				if q.Profile == nil {
+					pn := model.P1Name
+					q.Profile = &pn
+				}
+			} else {
+				obs.P2Of(x).CanonicalProfile = ""
+			}
+			how = "canonical-name-unset"
+		case 1:
+			if q := obs.P1Of(x); q != nil {
+				q.CanonicalProfile = "SOME_OTHER_PROFILE"
+				if q.Profile == nil {
+					pn := model.P1Name
+					q.Profile = &pn
+				}
+			} else {
+				obs.P2Of(x).CanonicalProfile = "http://example.com/some-other-profile"
+			}
+			how = "canonical-name-foreign"
+		default:
+			// an extension object whose profile claim still says "base profile"
+			if q := obs.P2Of(x); q != nil {
+				x = &extprof.ExtP2Claims{P2Claims: *q}
+				x.(*extprof.ExtP2Claims).CanonicalProfile = extprof.ExtP2Name
+			} else {
+				q := obs.P1Of(x)
+				if q.Profile == nil {
+					pn := model.P1Name
+					q.Profile = &pn
+				}
+				x = &extprof.ExtP1Claims{P1Claims: *q}
+				x.(*extprof.ExtP1Claims).CanonicalProfile = extprof.ExtP1Name
+			}
+			how = "extension-carrying-base-profile-name"
+		}
+		if x.Validate() == nil {
+			c.Count("profile-mismatch-object-unexpectedly-valid")
+			continue
+		}
+		sig := fmt.Sprintf("object|P%d|profile-mismatch:%s", p, how)
+		c.Sig(sig)
+		c.Count("objects:profile-mismatch")
+		c08Invalidate = nil
+		det := map[string]any{"case": abstractSample(a), "how": how}
+		k := ks[i%7]
+		guard("object gates (profile mismatch)", det, func() { c08Object(c, x, k, sig, det) })
+	}
+	// ---- a stricter extension whose own rules are reported with the "ignorable"
+	// sentinels (missing-optional / not-in-profile): only its Validate() knows
+	for i := 0; i < c.N(8000, 200000); i++ {
+		a := g.Valid(2)
+		a.Canon, a.Profile = extprof.ExtStrictName, model.SP(extprof.ExtStrictName)
+		cls := "strict-valid"
+		switch i % 3 {
+		case 0:
+			a.BootSeed, a.VSI = nil, nil
+			cls = "strict-invalid:no-boot-seed"
+		case 1:
+			a.BootSeed, a.VSI = model.BP(g.Bytes(8+g.R.Intn(25))), model.SP("https://example.com/vsi")
+			cls = "strict-invalid:vsi-present"
+		default:
+			a.BootSeed, a.VSI = model.BP(g.Bytes(8+g.R.Intn(25))), nil
+		}
+		x, err := obs.Build(a)
+		if err != nil {
+			continue
+		}
+		if (x.Validate() == nil) != (cls == "strict-valid") {
+			c.Violation("harness/strict-extension", "the harness's strict extension does not behave as designed", map[string]any{"cls": cls})
+			continue
+		}
+		sig := "object|ExtStrict|" + cls
+		c.Sig(sig)
+		c.Count("objects:" + cls)
+		c08Invalidate = nil
+		det := map[string]any{"case": abstractSample(a), "cls": cls}
+		k := ks[i%7]
+		guard("object gates (strict extension)", det, func() { c08Object(c, x, k, sig, det) })
+		wire := refcbor.Encode(a.WireCBOR())
+		guard("cbor decode gates (strict extension)", map[string]any{"wire_hex": mon.Hex(wire)}, func() { c.Count("cbor-" + cls + ":" + c08DecodeCBOR(c, wire, "cbor|ExtStrict|"+cls)) })
+		doc := a.WireJSON()
+		guard("json decode gates (strict extension)", map[string]any{"json": string(doc)}, func() { c.Count("json-" + cls + ":" + c08DecodeJSON(c, doc, "json|ExtStrict|"+cls)) })
+		if i%2 == 0 {
+			prot := refcbor.Encode(refcbor.MapOf(refcbor.I(1), refcbor.I(coseAlgID[k.Name])))
+			if sg, err := k.Signer.Sign(rand.Reader, refcose.SigStructure(prot, wire)); err == nil {
+				tok := sign1Bytes(prot, nil, wire, sg)
+				guard("cose decode gates (strict extension)", map[string]any{"token_hex": mon.Hex(tok)}, func() { c.Count("cose-" + cls + ":" + c08DecodeCOSE(c, tok, k.Pub, "cose|ExtStrict|"+cls)) })
 			}
 		}
 	}
@@ -528,6 +635,12 @@ func runC08(c *mon.Ctx) {
 	c.Floor("objects:invalid", 1000)
 	c.Floor("extension-rule-only-invalid", 50)
 	c.Floor("invalidated-after-attach", 500)
+	c.Floor("objects:profile-mismatch", 500)
+	c.Floor("objects:strict-invalid:no-boot-seed", 200)
+	c.Floor("objects:strict-invalid:vsi-present", 200)
+	c.Floor("json-strict-invalid:no-boot-seed:decoded-invalid", 100)
+	c.Floor("json-strict-invalid:vsi-present:decoded-invalid", 100)
+	c.Floor("cbor-strict-valid:decoded-valid", 100)
 	for _, fam := range []string{"cbor", "json", "cose"} {
 		c.Floor(fam+"-ext-rule-only-invalid:decoded-invalid", 100)
 		c.Floor(fam+"-ext-valid:decoded-valid", 100)
